@@ -249,6 +249,35 @@ static std::string responses(WirePeer& P, Torrent* T) {
   return msgs.empty() ? "-" : msgs;
 }
 
+// MSE negotiation of a scripted peer (initiator, RC4 only, IA = the BT handshake `bt`) with common/msepeer.h.
+// On success P.rx holds the decrypted bytes the library sent after its negotiation reply; returns "" or an error.
+static std::string mse_connect(Session& S, WirePeer& P, Torrent* T, std::unique_ptr<MseEnd>& mse, const std::string& bt) {
+  mse = std::make_unique<MseEnd>(77000 + g_conn_no, true);
+  P.send_bytes(mse->pubkey());
+  pump(S, {&P});
+  if (P.rx.size() < 96) return "ERR:mse-no-key";
+  mse->set_remote_key(P.rx.substr(0, 96));
+  mse->start_ciphers(T->info_hash);
+  auto be16 = [](unsigned v) { char b[2] = {char(v >> 8), char(v)}; return std::string(b, 2); };
+  std::string neg = std::string(8, '\0') + WirePeer::be32(2) + be16(0) + be16((unsigned)bt.size());
+  std::string m2 = mse->req1() + mse->req2xor3(T->info_hash);
+  m2 += mse->enc(neg);   // sequenced: both use the same keystream
+  m2 += mse->enc(bt);
+  P.send_bytes(m2);
+  pump(S, {&P});
+  std::string pat = mse->vc_pattern_in();
+  size_t at = P.rx.find(pat, 96);
+  if (at == std::string::npos || P.rx.size() < at + 14) return "ERR:mse-no-vc rx=" + std::to_string(P.rx.size()) + " eof=" + std::to_string(P.eof);
+  std::string sel = mse->dec(P.rx.substr(at, 14));
+  unsigned padd = ((unsigned char)sel[12] << 8) | (unsigned char)sel[13];
+  if (P.rx.size() < at + 14 + padd) return "ERR:mse-short-pad";
+  mse->dec(P.rx.substr(at + 14, padd));
+  if ((unsigned char)sel[11] != 2) return "ERR:mse-select-" + std::to_string((int)(unsigned char)sel[11]);
+  std::string rest = P.rx.substr(at + 14 + padd);
+  P.rx = mse->dec(rest);
+  return "";
+}
+
 struct Seg { uint32_t cap; std::vector<long> lens; };   // lens entry -1 = `w`: the write side becomes ready
 
 static std::string run_one(Session& S, RoleCtx& rc, std::map<std::string, std::string>& kv, const Seg& seg, std::string& d2) {
@@ -283,29 +312,8 @@ static std::string run_one(Session& S, RoleCtx& rc, std::map<std::string, std::s
   else if (ho.empty()) after_bt += WirePeer::keepalive();
   after_bt += ho;
   if (want_enc) {
-    mse = std::make_unique<MseEnd>(77000 + g_conn_no, true);
-    P.send_bytes(mse->pubkey());
-    pump(S, {&P});
-    if (P.rx.size() < 96) return "ERR:mse-no-key";
-    mse->set_remote_key(P.rx.substr(0, 96));
-    mse->start_ciphers(T->info_hash);
-    auto be16 = [](unsigned v) { char b[2] = {char(v >> 8), char(v)}; return std::string(b, 2); };
-    std::string neg = std::string(8, '\0') + WirePeer::be32(2) + be16(0) + be16((unsigned)bt.size());
-    std::string m2 = mse->req1() + mse->req2xor3(T->info_hash);
-    m2 += mse->enc(neg);   // sequenced: both use the same keystream
-    m2 += mse->enc(bt);
-    P.send_bytes(m2);
-    pump(S, {&P});
-    std::string pat = mse->vc_pattern_in();
-    size_t at = P.rx.find(pat, 96);
-    if (at == std::string::npos || P.rx.size() < at + 14) return "ERR:mse-no-vc rx=" + std::to_string(P.rx.size()) + " eof=" + std::to_string(P.eof) + " hs=" + std::to_string(S.handshake_count());
-    std::string sel = mse->dec(P.rx.substr(at, 14));
-    unsigned padd = ((unsigned char)sel[12] << 8) | (unsigned char)sel[13];
-    if (P.rx.size() < at + 14 + padd) return "ERR:mse-short-pad";
-    mse->dec(P.rx.substr(at + 14, padd));
-    if ((unsigned char)sel[11] != 2) return "ERR:mse-select-" + std::to_string((int)(unsigned char)sel[11]);
-    std::string rest = P.rx.substr(at + 14 + padd);
-    P.rx = mse->dec(rest);
+    std::string merr = mse_connect(S, P, T, mse, bt);
+    if (!merr.empty()) return merr;
     enc_active = true;
     tx(after_bt);
   } else {
@@ -432,6 +440,7 @@ static std::string run_free(Session& S, std::map<std::string, std::string>& kv) 
   spec.content_seed = 100 + g_free_no;
   spec.files = {{"f.bin", 3 * 16384 + 700}};
   spec.corrupt_pieces = {1, 3};
+  if (kv["ops"].find("H") != std::string::npos) spec.corrupt_pieces = {1};   // three peers on ONE missing block
   rc.T = S.add_torrent(spec);
   Torrent* T = rc.T;
   S.start(T);
@@ -518,6 +527,58 @@ static std::string run_free(Session& S, std::map<std::string, std::string>& kv) 
       Q.close_all();
       pump(S, {&P});
     }
+    else if (k == 'H') {
+      // endgame with THREE peers on the same block and the leader going away, H<a>:<b>:<c>:<order>: P sends the
+      // header of the (only missing) block + a bytes (leader), Q header + b bytes, R header + c bytes (followers at
+      // different compared positions), P's connection is closed in the middle of its PIECE, then the followers go on,
+      // order 0: R first, then Q; order 1: Q first, then R.
+      unsigned a = 0, b = 0, c = 0, order = 0;
+      if (sscanf(arg.c_str(), "%u:%u:%u:%u", &a, &b, &c, &order) != 4) return "FREE || BADCASE";
+      WirePeer Q, R;
+      if (!connect_hostile(S, Q, T, rc.healthy.get())) return "FREE || ERR:connect2";
+      Q.send_bytes(WirePeer::handshake(T->info_hash, peer_id(g_conn_no)) + WirePeer::bitfield("1111"));
+      if (!connect_hostile(S, R, T, rc.healthy.get())) return "FREE || ERR:connect3";
+      R.send_bytes(WirePeer::handshake(T->info_hash, peer_id(g_conn_no)) + WirePeer::bitfield("1111"));
+      pump(S, {&P, &Q, &R});
+      HandshakeIn hq;
+      if (!Q.take_handshake(hq) || !R.take_handshake(hq)) return "FREE || ERR:handshake23";
+      P.send_bytes(WirePeer::unchoke()); pump(S, {&P, &Q, &R});
+      Q.send_bytes(WirePeer::unchoke()); pump(S, {&P, &Q, &R});
+      R.send_bytes(WirePeer::unchoke()); pump(S, {&P, &Q, &R});
+      collect();
+      auto reqs_of = [](WirePeer& W) {
+        std::vector<std::array<uint32_t, 3>> v; WireMsg m;
+        while (W.next_message(m)) if (m.id == WirePeer::REQUEST && m.body.size() == 12) v.push_back({m.u32(0), m.u32(4), m.u32(8)});
+        return v;
+      };
+      auto rq = reqs_of(Q), rr = reqs_of(R);
+      if (reqs.empty() || rq.empty() || rr.empty() || !(reqs[0] == rq[0]) || !(reqs[0] == rr[0])) {
+        endgame_note = " nocommon3(" + std::to_string(reqs.size()) + "," + std::to_string(rq.size()) + "," + std::to_string(rr.size()) + ")";
+        continue;
+      }
+      auto X = reqs[0];
+      uint32_t len = X[2];
+      a = std::min(a, len); b = std::min(b, len); c = std::min(c, len);
+      std::string data = T->range(X[0], X[1], len);
+      std::string hdr = WirePeer::raw(9 + len, std::string(1, char(7)) + WirePeer::be32(X[0]) + WirePeer::be32(X[1]));
+      P.send_bytes(hdr + data.substr(0, a)); pump(S, {&P, &Q, &R});
+      Q.send_bytes(hdr + data.substr(0, b)); pump(S, {&P, &Q, &R});
+      R.send_bytes(hdr + data.substr(0, c)); pump(S, {&P, &Q, &R});
+      P.close_all();                       // the leader truncates its PIECE: EOF
+      pump(S, {&Q, &R});
+      WirePeer* first = order == 0 ? &R : &Q;
+      WirePeer* second = order == 0 ? &Q : &R;
+      unsigned fo = order == 0 ? c : b, so = order == 0 ? b : c;
+      first->send_bytes(data.substr(fo)); pump(S, {&Q, &R});
+      second->send_bytes(data.substr(so)); pump(S, {&Q, &R});
+      S.settle([&]() { return false; }, 30);
+      pump(S, {&Q, &R});
+      bool qa = S.find_connection(T, Q.local_port()) != nullptr, ra = S.find_connection(T, R.local_port()) != nullptr;
+      endgame_note = " leaderdrop(" + std::to_string(X[0]) + ":" + std::to_string(X[1]) + ":" + std::to_string(len) + ") q=" + std::to_string(qa) + " r=" + std::to_string(ra);
+      reqs.clear();
+      Q.close_all(); R.close_all();
+      pump(S, {});
+    }
     else if (k == 'A') {
       int v = std::stoi(arg);
       collect();
@@ -561,6 +622,72 @@ static std::string run_free(Session& S, std::map<std::string, std::string>& kv) 
   rc.healthy->close_all();
   pump(S, {});
   S.remove(T);
+  return res;
+}
+
+// mode=freeup role=<seed|leechdone|iseed|leech> enc=<0|1> piece=<i> pause=<sec> again=<j>   (safety only)
+// The client uploads: INTERESTED, REQUEST of a block of piece i (served), NOT_INTERESTED (choked), <pause> s of virtual
+// time, INTERESTED again (unchoked when pause > 10 s), REQUEST of a block of piece j (j = i: the same chunk is still
+// the connection's upload chunk). Plain or MSE/RC4.
+static std::string run_freeup(Session& S, std::map<std::string, std::string>& kv) {
+  const std::string role = kv["role"];
+  const bool per = role == "iseed";
+  RoleCtx local;
+  RoleCtx* rcp;
+  if (per) { make_role(S, local, role, 8); rcp = &local; } else rcp = &get_role(S, role, 8);
+  RoleCtx& rc = *rcp;
+  Torrent* T = rc.T;
+  if (rc.healthy && rc.healthy->fd != -1) rc.healthy->send_bytes(WirePeer::keepalive());
+  S.step();
+  S.avoid_tick_within(60 * 1000000ll);
+  WirePeer P;
+  if (!connect_hostile(S, P, T, rc.healthy.get())) return "FREE || ERR:connect";
+  std::unique_ptr<MseEnd> mse;
+  bool enc_active = false;
+  auto tx = [&](const std::string& b) { P.send_bytes(enc_active ? mse->enc(b) : b); };
+  auto epump = [&]() {
+    size_t before = P.rx.size();
+    pump(S, {&P});
+    if (enc_active && P.rx.size() > before) {
+      std::string c = P.rx.substr(before);
+      P.rx.replace(before, std::string::npos, mse->dec(c));
+    }
+  };
+  std::string bt = WirePeer::handshake(T->info_hash, peer_id(g_conn_no));
+  if (kv["enc"] == "1") {
+    std::string merr = mse_connect(S, P, T, mse, bt);
+    if (!merr.empty()) return "FREE || " + merr;
+    enc_active = true;
+    tx(WirePeer::keepalive());
+  } else P.send_bytes(bt + WirePeer::keepalive());
+  epump();
+  HandshakeIn hs;
+  if (!P.take_handshake(hs)) return "FREE || ERR:handshake";
+  uint16_t port = P.local_port();
+  uint32_t i = std::stoul(kv["piece"]), j = std::stoul(kv["again"]);
+  long pause = std::stol(kv["pause"]);
+  std::string resp;
+  tx(WirePeer::interested());
+  epump();
+  S.advance_us(11 * 1000000);
+  epump();
+  tx(WirePeer::request(i, 0, 1000));
+  epump();
+  resp += responses(P, T);
+  tx(WirePeer::not_interested());
+  epump();
+  S.advance_us(pause * 1000000ll);
+  epump();
+  tx(WirePeer::interested());
+  epump();
+  tx(WirePeer::request(j, 1000, 1000) + WirePeer::request(j, 3000, 500));
+  epump();
+  resp += "|" + responses(P, T);
+  bool alive = S.find_connection(T, port) != nullptr;
+  std::string res = std::string("FREE || alive=") + (alive ? "1" : "0") + " resp=" + resp + " healthy=" + healthy_check(S, rc, per);
+  P.close_all();
+  pump(S, {});
+  if (per) { rc.healthy->close_all(); pump(S, {}); S.remove(T); }
   return res;
 }
 
@@ -610,6 +737,7 @@ static std::string run_case(Session& S, const std::string& line) {
   }
   if (kv["mode"] == "free") return run_free(S, kv);
   if (kv["mode"] == "probe") return run_probe(S, kv);
+  if (kv["mode"] == "freeup") return run_freeup(S, kv);
   if (!kv.count("role") || !kv.count("stream") || !kv.count("segs")) return "BADCASE";
   return run_exact(S, kv);
 }
